@@ -181,6 +181,30 @@ Theorem C07_twin_with_scalar_partial :
     absv (heap s1') r1 = absv (heap s2') r2.
 Proof. exact with_scalar_copy_twin. Qed.
 
+(* and the frozen run cannot fail where the twin succeeds: only the run on the
+   second table is assumed to return (with_<a>(scalar) / flat receiver, as above) *)
+Theorem C07_twin_with_scalar_total_partial :
+  forall ct1 ct2 l a c d k1 k2 sp s v r2 s2',
+    nth_error (heap s) l = Some (OInst c d) ->
+    lookup_cls ct1 c = Some k1 -> lookup_cls ct2 c = Some k2 ->
+    lookup_attr k1 a = Some sp -> lookup_attr k2 a = Some sp ->
+    NoDup (map fst d) -> flat_fields (heap s) d ->
+    c_dnc k1 = false -> c_dnc k2 = false ->
+    no_inval k1 -> no_inval k2 ->
+    c_post_copy k1 = None ->
+    fail_at s = None ->
+    ty_depth (a_ty sp) < FUEL ->
+    ty_is_collection (a_ty sp) = false ->
+    assoc A_INITIALIZING d = None ->
+    a <> A_INITIALIZING ->
+    vscalar v = true ->
+    match a_prepare sp with Some f => scalar_fn f = true | None => True end ->
+    run_helper ct2 l (HWith a) (mkh [v] false true VMissing false None None [] None) s = (Ok r2, s2') ->
+    exists r1 s1',
+      run_helper ct1 l (HWith a) (mkh [v] false true VMissing false None None [] None) s = (Ok r1, s1') /\
+      absv (heap s1') r1 = absv (heap s2') r2.
+Proof. exact with_scalar_copy_twin_total. Qed.
+
 (* non-vacuity: a frozen instance, an in-place assignment, FrozenInstanceError *)
 Definition fz_ct : ctable :=
   [mkcls 1 [mkattr 1 TInt (VInt 0) None 1 true false None None []] true false None [1] 1 [] None None].
@@ -206,4 +230,5 @@ Print Assumptions C07_inplace_operation_on_another_receiver_leaves_frozen_instan
 Print Assumptions C07_element_helper_on_another_receiver_leaves_frozen_instance_untouched.
 Print Assumptions C07_cow_with_scalar_partial.
 Print Assumptions C07_twin_with_scalar_partial.
+Print Assumptions C07_twin_with_scalar_total_partial.
 Print Assumptions C07_nonvacuous.
